@@ -175,7 +175,7 @@ def run(rep):
                 lvl, why = bounds.guard_level(s)
                 ok = lvl == "strong"
             rep.check(ok, "C07-R4", d, s.kind, "allocation sized by a non-constant value in a decode path", line=s.line, detail={"const": n})
-    rep.floor("C07-R3", "raw access sites", n_sites, 25)
+    rep.floor("C07-R3", "raw access sites", n_sites, 15)
     # positive control: the rule must recognise a known unguarded-looking site as non-strong
     ctl = prog.one(r"^aldrin_core::deserializer::Deserializer::<'a, 'b>::split_off_serialized_value$")
     ctl_sites = bounds.raw_sites(ctl)
